@@ -79,8 +79,13 @@ def dims_for(rng, maxdim):
     return t, r, c
 
 
-def random_script(rng, length, maxdim=3, maxfreq=3, convert=True):
-    sh = [Shadow(), Shadow()]
+NOBJ = 4                               # object slots of harness/data_harness.c
+
+
+def random_script(rng, length, maxdim=3, maxfreq=3, convert=True, nobj=NOBJ):
+    """nobj objects (identifiers of TwoObjModel.kstep): most operations go to object 0, the rest
+    to any object; conversions between any two objects, in place half of the time."""
+    sh = [Shadow() for _ in range(nobj)]
     ops = []
 
     def resized(s, t, r, c, f):
@@ -88,7 +93,7 @@ def random_script(rng, length, maxdim=3, maxfreq=3, convert=True):
             s.t, s.r, s.c, s.f = t, r, c, f
 
     while len(ops) < length:
-        o = rng.randint(0, 1) if rng.random() < 0.35 else 0
+        o = rng.randint(0, nobj - 1) if rng.random() < 0.35 else 0
         s = sh[o]
         k = rng.random()
         if k < 0.06:
@@ -166,8 +171,8 @@ def random_script(rng, length, maxdim=3, maxfreq=3, convert=True):
                                    "%d setfprec %d" % (o, rng.randint(0, 9)),
                                    "%d setdprec %d" % (o, rng.randint(0, 9)))))
         elif convert:
-            a = rng.randint(0, 1)
-            b = a if rng.random() < 0.5 else 1 - a
+            a = rng.randint(0, nobj - 1)
+            b = a if rng.random() < 0.5 else rng.choice([x for x in range(nobj) if x != a])
             src = sh[a]
             if rng.random() < 0.6:
                 # make the source convertible and non-trivial first
@@ -232,3 +237,50 @@ def exhaustive_alphabet(maxdim=2):
     a.append("conv 0 1 5")
     a.append("conv 1 0 1")
     return a
+
+
+def multi_object_script(rng, nobj=NOBJ, maxfreq=2):
+    """Conversions among all nobj objects: a convertible source in one slot, then a walk of
+    conversions slot to slot (and in place) through types, interleaved with writes to the slots
+    walked over, a free + alloc of a slot in between, and reads of every slot at the end."""
+    ops = []
+    src = rng.randint(0, nobj - 1)
+    t = rng.choice(SQUARE + TWO_PORT)
+    n = 2 if (t in TWO_PORT or rng.random() < 0.6) else rng.randint(1, 3)
+    f = rng.randint(1, maxfreq)
+    ops.append("%d init %d %d %d %d" % (src, t, n, n, f))
+    for fi in range(f):
+        ops.append("%d setmat %d %s" % (src, fi, vlist(rng, n * n, val)))
+    if rng.random() < 0.5:
+        ops.append("%d setz0v %s" % (src, vlist(rng, n, zval)))
+    else:
+        ops.append("%d setfz0v %d %s" % (src, rng.randint(0, f - 1), vlist(rng, n, zval)))
+    if rng.random() < 0.5:
+        ops.append("%d setfmt %d" % (src, rng.choice((-1, 0, 1, 2, 3, 4, 5))))
+    for o in range(nobj):
+        if o != src and rng.random() < 0.6:
+            tt, r, c = dims_for(rng, 3)
+            ops.append("%d init %d %d %d %d" % (o, tt, r, c, rng.randint(0, 3)))
+            ops.append("%d setfz0 0 0 %s" % (o, zval(rng)))
+    cur = src
+    for _ in range(rng.randint(3, 7)):
+        nxt = cur if rng.random() < 0.3 else rng.choice([x for x in range(nobj) if x != cur])
+        if n == 2:
+            nt = rng.choice((1, 2, 3, 4, 5, 6, 7, 8, 9, 9, 10, rng.randint(-1, 11)))
+        else:
+            nt = rng.choice((1, 4, 5, 5, 10, rng.randint(-1, 11)))
+        ops.append("conv %d %d %d" % (cur, nxt, nt))
+        k = rng.random()
+        if k < 0.2:
+            ops.append("%d setcell 0 0 0 %s" % (cur, val(rng)))
+        elif k < 0.3:
+            other = rng.choice([x for x in range(nobj) if x != nxt])
+            ops.append("%d allocinit 0 0 0 0" % other)
+            if other == cur:
+                break
+        elif k < 0.4:
+            ops.append("%d resize 0 3 3 3" % cur)
+        cur = nxt
+    for o in range(nobj):
+        ops += ["%d dims" % o, "%d meta" % o, "%d getmat 0" % o, "%d hasfz0" % o, "%d getfz0v 0" % o]
+    return ops
